@@ -126,7 +126,7 @@ func isSel(e ast.Expr, pkg, name string) bool {
 }
 
 // checkBindings verifies the postcondition of every generated init of the loaded packages.
-func (r *Run) checkBindings(pkgNames []string, completeness bool) *bindStats {
+func (r *Run) checkBindings(pkgNames []string, completeness bool, onlyPaths ...string) *bindStats {
 	st := &bindStats{}
 	union := map[string]map[string]bool{}   // import path -> keys bound in any loaded table
 	tpkgs := map[string]*types.Package{}
@@ -166,6 +166,17 @@ func (r *Run) checkBindings(pkgNames []string, completeness bool) *bindStats {
 			tpkg := tpkgs[ip]
 			if tpkg == nil {
 				continue
+			}
+			if len(onlyPaths) > 0 {
+				keep := false
+				for _, op := range onlyPaths {
+					if op == ip {
+						keep = true
+					}
+				}
+				if !keep {
+					continue
+				}
 			}
 			have := union[ip]
 			nbad := 0
@@ -691,4 +702,50 @@ func runGoEnv(k string) string {
 // twinKey maps stdlib/go1_21_time.go and stdlib/go1_22_time.go to the same key.
 func twinKey(file string) string {
 	return strings.NewReplacer("go1_21_", "go1_XX_", "go1_22_", "go1_XX_").Replace(file)
+}
+
+// bindingsAllPlatforms (thorough tier): the syscall and unrestricted tables of every GOOS/GOARCH
+// pair that has a generated file are type-checked against that platform's standard library.
+func (r *Run) bindingsAllPlatforms(st *bindStats) {
+	files, _ := filepath.Glob(filepath.Join(r.Repo, "stdlib/syscall/go1_22_syscall_*.go"))
+	host := r.L
+	done := 0
+	var failed []string
+	for _, f := range files {
+		b := strings.TrimSuffix(strings.TrimPrefix(filepath.Base(f), "go1_22_syscall_"), ".go")
+		parts := strings.SplitN(b, "_", 2)
+		if len(parts) != 2 {
+			continue
+		}
+		goos, goarch := parts[0], parts[1]
+		if goos == "linux" && goarch == "amd64" {
+			continue
+		}
+		L, err := Load(r.Repo, []string{"./stdlib/syscall", "./stdlib/unrestricted"}, "verif", "GOOS="+goos, "GOARCH="+goarch, "CGO_ENABLED=0")
+		if err != nil {
+			failed = append(failed, goos+"/"+goarch+": "+err.Error())
+			msg := err.Error()
+			if i := strings.Index(msg, "does not type-check"); i >= 0 {
+				r.ground(goos+"_"+goarch+":stdlib/syscall/type-checks", "the shipped tables compile for "+goos+"/"+goarch, false, msg)
+			}
+			continue
+		}
+		r.ground(goos+"_"+goarch+":stdlib/syscall/type-checks", "the shipped tables compile for "+goos+"/"+goarch, true, "")
+		L.specs, L.prelude = host.specs, host.prelude
+		r.L = L
+		before := len(r.Obls)
+		sub := r.checkBindings([]string{"syscall", "unrestricted"}, false)
+		st.entries += sub.entries
+		st.tables += sub.tables
+		st.complete += sub.complete
+		for _, o := range r.Obls[before:] {
+			o.Name = strings.Replace(o.Name, r.Prop+"/", r.Prop+"/"+goos+"_"+goarch+":", 1)
+		}
+		done++
+	}
+	r.L = host
+	r.Extra["platforms_typed"] = done + 1
+	if len(failed) > 0 {
+		r.Extra["platforms_not_loadable"] = failed
+	}
 }
